@@ -45,6 +45,16 @@ theorem crlf_same_tokens (C : Classes) (t : Bytes) (h : (0x0D : UInt8) ∉ t) :
   rw [crlf_is_lf C t h, List.map_map]
   rfl
 
+/-- **Mixed line ends.**  The same for the whole domain "CR only as part of CRLF" — LF files,
+    CRLF files and files that mix the two line ends: for every byte string `t` in which every
+    carriage return is directly followed by a line feed (`CrOk`) and every classifier, the token
+    stream of `t` is the token stream of `t` without its carriage returns — same types, values,
+    lines and columns — with every offset moved by the number of carriage returns in front of
+    the position's line (`mixShift t`). -/
+theorem crlf_mixed_is_lf (C : Classes) (t : Bytes) (h : CrOk t = true) :
+    lexAll C t = (lexAll C (dropCR t)).map (mixShift t) :=
+  lexAll_mixed C t h
+
 /-- One line (the core of the proof, for every lexer state): with `s ++ "\n"` ahead and neither
     CR nor LF in `s`, lexing `s ++ "\r\n"` instead gives the same tokens; only the end of the
     Newline token and the EOF token lie one byte further on. -/
